@@ -79,6 +79,7 @@ def run_be(PID, prop_file, gen, monitor, nontrivial, rule, n_quick=400, n_thorou
             km = lambda line, impl, msg: known_match(byline.get(line), impl, msg)
         dis, mons = correspond(ck, 'M-BE vs backend driver', lines, ml, il, monitor=mon, shrink=shrink, known_match=km)
         phase_cov = extra_phase(ck, tier, broken) if extra_phase else None   # optional property-specific search (may add violations)
+        abs_cov = mbe_abstraction_search(ck, broken)
         if broken and not ck.violations:
             ck.violation('no-failing-input-found', '; '.join(broken))
         nt = len(set(l for l, i in zip(lines, il) if not i.startswith(('CRASH', 'HANG', 'NOOUTPUT')) and nontrivial(byline[l], BC.parse_obs(i))))
@@ -93,9 +94,38 @@ def run_be(PID, prop_file, gen, monitor, nontrivial, rule, n_quick=400, n_thorou
         cov['monitor_only_cases_unbounded_queue'] = len(mon_only)
         if extra_cov: cov.update(extra_cov)
         if phase_cov: cov.update(phase_cov)
+        if abs_cov: cov['abstraction_search'] = abs_cov
         return ck.finish(trusted=trusted or TRUSTED_BE, samples=[lines[0][:600], lines[-1][:600]], rule=rule,
                          evaluations=len(lines), distinct_nontrivial=nt, traces=len(lines) - len(dis) - len(mons), extra_cov=cov)
     return run
+
+
+def mbe_abstraction_search(ck, broken):
+    """when the T-src facts behind M-BE's two abstractions (atomic FIFO queues; atomic registration / cache refresh) no
+    longer hold (theorem Cxx_tie_MBE_abstractions undischarged) and nothing concrete was found on the driver, which runs
+    one thread at a time: look for a failing input where such a fault shows - real threads on the registration protocol
+    (harness/reg_mt.cpp, C03) and on the unbounded queue (harness/uq_mt.cpp, C02)"""
+    if ck.violations or not any('tie_MBE_abstractions' in b for b in broken): return None
+    import props.c03 as c03, props.c02 as c02
+    out = {}
+    exe, err = ck.build_harness('reg_mt', ['reg_mt.cpp'], flags=c03.REG_FLAGS, san=False)
+    if exe:
+        cases, il, rounds = c03.reg_runs(ck, exe, 'quick')
+        bad = [(c, i, c03.reg_monitor(c, i)) for c, i in zip(cases, il) if i != 'NOTRUN' and c03.reg_monitor(c, i)]
+        out['registration_runs'] = len(cases); out['registration_mismatches'] = len(bad)
+        if bad:
+            c0, i0, m0 = min(bad, key=lambda x: int(x[0].split()[1]) * int(x[0].split()[2]))
+            ck.violation('impl-failing-input', 'registration / cache refresh are not the atomic steps M-BE assumes - real threads on ThreadContextManager + BackendWorker::_update_active_thread_contexts_cache '
+                         '(harness/reg_mt.cpp): ' + m0 + ' [for this property: the statements of such a thread are never read, ordered, flushed, counted or reclaimed]',
+                         case=c0, expected='every registered context is in the backend\'s cache', observed=i0,
+                         extra={'note': 'the outcome depends on the thread interleaving: repeat the case (./check C03 --replay repeats it up to 2000 times)'})
+            return out
+    qmsg, qinfo = c02.mt_runs(ck, 'quick')
+    out['queue_two_thread_search'] = qmsg or 'no failure'
+    if qmsg:
+        ck.violation('impl-failing-input', 'a thread\'s queue is not the FIFO M-BE assumes - two real threads over UnboundedSPSCQueue: ' + qmsg, case=qinfo,
+                     expected='OK (every record once, in order, intact)', observed=qmsg)
+    return out
 
 
 def be_driver_phase(ck, tier, gen, monitor, n_quick, n_thorough, name):
